@@ -396,7 +396,12 @@ def float_cases(ck):
     ex = []
     ips = [str(i) for i in range(10)] + ["%02d" % i for i in range(100)] + ["%03d" % i for i in range(1000)]
     fps = ips
-    ex = [a + "," + b for a in ips for b in fps]
+    if ck.quick:
+        # quick: every literal with <=3+2 or <=2+3 digits, and a seeded sample of the 3+3 remainder (thorough: all of <=3+3)
+        ex = [a + "," + b for a in ips for b in fps if len(a) <= 2 or len(b) <= 2]
+        ex += [rng.choice(ips[110:]) + "," + rng.choice(fps[110:]) for _ in range(100000)]
+    else:
+        ex = [a + "," + b for a in ips for b in fps]
     rnd = set()
     nr = 30000 if ck.quick else 400000
     for _ in range(nr):
@@ -671,6 +676,8 @@ def leg_e2e(ck, b, texts, stats, corpus=()):
 def persist(kind, text):
     """keep a minimised failing literal under corpus/C19 (run first by every later check)"""
     import hashlib
+    if os.path.realpath(vlib.REPO) != "/repo":
+        return      # mutation experiments (VERIF_REPO=copy) must not leave their failures in the corpus of the real tree
     d = os.path.join(vlib.VERIF, "corpus", PID)
     os.makedirs(d, exist_ok=True)
     f = os.path.join(d, hashlib.sha1((kind + "\0" + text).encode()).hexdigest()[:12] + ".json")
@@ -830,7 +837,8 @@ def main():
     ck.cov["further_witnesses_per_class"] = dict(_seen_cls)
     ck.cov["exhaustive"] = dict(
         texts="all %d strings of length <= %d over %d symbols (z \" ' \\ a b n r t LF ä U+1D11E), as text and as character literal, scanner and parser" % (len(texts), L, len(ALPHA)),
-        decimals="all %d literals with 1-3 + 1-3 digits (leading zeros included)" % stats["floats"]["exhaustive_3_3"],
+        decimals=("all 232100 literals with <=3+2 or <=2+3 digits, plus 100000 sampled 3+3 ones (%d cases; the full 1232100 are enumerated in the thorough tier)"
+                  if ck.quick else "all %d literals with 1-3 + 1-3 digits (leading zeros included)") % stats["floats"]["exhaustive_3_3"],
         characters="%d scalar values as plain character literal (%s)" % (len(cps), "BMP + every 17th astral" if ck.quick else "all"))
     ck.cov["rule"] = ("inputs: literal spellings; non-trivial = text/char with an escape or a multi-byte character, integer with >= 18 digits or leading zero or out of range, "
                       "decimal whose double is not a short dyadic value, compiled literal with escape/multi-byte; distinct by spelling")
